@@ -1,7 +1,8 @@
 (* Extraction of the executable model for the correspondence check.
    Only ExtrOcamlBasic: Z, positive, N, nat stay Coq datatypes. *)
 Require Import ExtrOcamlBasic.
-From X86 Require Addr.Run.
+From X86 Require Addr.Run Paging.EntryRun.
 Extraction Language OCaml.
 Definition run_addr := Addr.Run.run_addr.
-Extraction "model.ml" run_addr.
+Definition run_pte := Paging.EntryRun.run_pte.
+Extraction "model.ml" run_addr run_pte.
